@@ -173,6 +173,14 @@ def generate(seed, tier="quick", **opts):
             op.update(op="anon", i=r.choice(names), x=r.choice(pools[0]))
             hist["anon"].append(n)
         ops.append(op)
+    # a long stretch of traffic on one instance (memo growth: eviction, compaction, size bounds)
+    c = r.random()
+    if c < 0.05:
+        nb = 6000 if c < 0.012 else (2500 if c < 0.025 else 300)
+        if kind == "small":
+            nb = 300
+        ops.insert(r.randint(0, max(0, len(ops) // 2)), {"id": nops + 1, "op": "bulk", "i": r.choice(names), "n": nb,
+                                                          "key": r.getrandbits(32)})
     if r.random() < 0.6:
         ops.append({"id": nops, "op": "dump", "i": r.choice(names)})
     return {"family": NAME, "seed": seed, "cfgs": cfgs, "ops": ops,
@@ -436,6 +444,30 @@ def check(plan):
                               "detail": "op %s: %s(%d)=%d, fresh %s raised %s" % (op["id"], direction, x, y[1], other, back[1])})
                 if direction == "anon":
                     I["observed"][x] = y[1]
+            elif kind == "bulk":
+                I = get_inst(op["i"])
+                activate(I["proc"])
+                br = random.Random(op["key"])
+                w = cfgs[I["ci"]]["width"]
+                probes["bulk_requests"] = probes.get("bulk_requests", 0) + op["n"]
+                for _ in range(op["n"]):
+                    x = br.getrandbits(w)
+                    try:
+                        I["a"].anonymize(x)
+                    except Exception:
+                        probes["warm_raises"] += 1
+                        break
+                I["nreq"] += op["n"]
+                c = getattr(I["a"], "cache", None)
+                if c is not None:
+                    try:
+                        probes["max_memo"] = max(probes.get("max_memo", 0), len(c))
+                        for k in c.keys():
+                            I["origin"].setdefault(k, "bulk")
+                    except Exception:
+                        pass
+                sig.append("B%d" % (op["n"] // 1000))
+                I["bulk"] = True
             elif kind == "text":
                 I = get_inst(op["i"])
                 if cfgs[I["ci"]]["kind"] == "small":
@@ -490,7 +522,8 @@ def check(plan):
                     elif d[o] != im:
                         V.append({"prop": "C17", "tag": "dump-wrong-image",
                                   "detail": "op %s: %d was replaced by %d, dump says %d" % (op["id"], o, im, d[o])})
-                for o, im in pairs:
+                sample = pairs if len(pairs) <= 80 else pairs[:40] + pairs[-40:]
+                for o, im in sample:
                     e = cold(I["ci"], "anon", o)
                     if e[0] == "ok" and e[1] != im:
                         V.append({"prop": "C17", "tag": "dump-not-the-map",
@@ -536,7 +569,7 @@ def check(plan):
 
 
 def _short(o):
-    return " ".join("%s=%s" % (k, o[k]) for k in ("op", "i", "j", "x", "ref", "line", "undo") if k in o)
+    return " ".join("%s=%s" % (k, o[k]) for k in ("op", "i", "j", "x", "n", "ref", "line", "undo") if k in o)
 
 
 # ---------------------------------------------------------------------------
@@ -561,6 +594,11 @@ def shrink_candidates(plan):
                 p["cfgs"][0][key] = list(kept)
                 yield p
     for n, op in enumerate(ops):
+        if op["op"] == "bulk" and op["n"] > 50:
+            for m in (op["n"] // 2, op["n"] - max(1, op["n"] // 10)):
+                p = copy.deepcopy(plan)
+                p["ops"][n]["n"] = m
+                yield p
         if "ref" in op:
             p = copy.deepcopy(plan)
             del p["ops"][n]["ref"]
